@@ -60,6 +60,11 @@ func init() {
 		}
 		es, rs := selectSet(engSess.Selects()), selectSet(refSess.Selects())
 		// An evaluation error may stop either engine before all selects were issued.
+		if res.Err == nil && (len(setDiff(es, rs)) > 0 || len(setDiff(rs, es)) > 0) {
+			if id := kf.Match(c); id != "" {
+				return core.Verdict{Status: "known", Known: id, Features: feats}
+			}
+		}
 		if res.Err == nil {
 			if only := setDiff(es, rs); len(only) > 0 {
 				return core.Verdict{Status: "violation", Features: feats, Detail: fmt.Sprintf("%sselect issued by the engine but not by the reference:\n  %s\nreference selects:\n  %s\n", hdr, strings.Join(only, "\n  "), strings.Join(setDiff(rs, map[string]bool{}), "\n  "))}
